@@ -928,16 +928,23 @@ impl<'a> BTreeCursor<'a> {
             return Ok(true);
         }
 
-        let next = page.right_sibling();
-        if next.as_u64() == 0 {
-            self.slot = count;
-            return Ok(false);
-        }
+        // Move to the next leaf that holds an entry: deletes do not merge pages, so empty leaves
+        // can sit in the middle of the chain.
+        loop {
+            let page = Page::new(&mut self.buf);
+            let next = page.right_sibling();
+            if next.as_u64() == 0 {
+                self.slot = page.cell_count() as u16;
+                return Ok(false);
+            }
 
-        self.leaf = next;
-        self.buf = self.pager.read_page(self.leaf)?;
-        self.slot = 0;
-        self.is_valid()
+            self.leaf = next;
+            self.buf = self.pager.read_page(self.leaf)?;
+            self.slot = 0;
+            if self.is_valid()? {
+                return Ok(true);
+            }
+        }
     }
 }
 
